@@ -13,6 +13,7 @@ Oracle: the n-th call of a reused grader against a freshly constructed grader gi
 """
 import copy
 import itertools
+import zlib
 import json
 import multiprocessing
 import os
@@ -45,6 +46,9 @@ MIRRORED = [('mitxgraders/baseclasses.py', 'ItemGrader.__call__'),
             ('mitxgraders/formulagrader/matrixgrader.py', 'MatrixGrader.check_response'),
             ('mitxgraders/helpers/calc/math_array.py', 'MathArray.enable_negative_powers'),
             ('mitxgraders/helpers/calc/expressions.py', 'MathExpression.eval_variable'),
+            ('mitxgraders/helpers/calc/expressions.py', 'MathExpression.eval'),
+            ('mitxgraders/helpers/calc/expressions.py', 'MathExpression.__init__'),
+            ('mitxgraders/helpers/calc/expressions.py', 'MathParser.parse'),
             ('mitxgraders/helpers/math_helpers.py', 'MathMixin.validate_math_config')]
 REFUTED = []
 TRUSTED = [
@@ -948,12 +952,49 @@ def world_factory(kind):
         return graders, menu
 
     def debugsub():
+        """mixed debug flags: subgraders with debug=True shared by list graders with and without debug, used directly
+        and through the lists; nested lists where only the innermost grader has debug"""
+        fgd, sgd = FormulaGrader(debug=True), StringGrader(debug=True)
+        inner = ListGrader(subgraders=fgd)
         graders = {
-            'fgd': FormulaGrader(debug=True),
-            'single_fd': None,
+            'fgd': fgd, 'sgd': sgd,
+            'single_fd': SingleListGrader(subgrader=fgd, answers=['1', '2']),
+            'single_fdd': SingleListGrader(subgrader=fgd, answers=['1', '2'], debug=True),
+            'list_fd': ListGrader(answers=['1', '2'], subgraders=fgd),
+            'list_fdd': ListGrader(answers=['1', '2'], subgraders=fgd, debug=True),
+            'list_sd': ListGrader(answers=['cat', '1'], subgraders=[sgd, fgd], ordered=True),
+            'list_nest': ListGrader(answers=[['1', '2'], ['3', '4']], grouping=[1, 1, 2, 2], subgraders=inner),
+            'single_nest': SingleListGrader(answers=[['1', '2'], ['3', '4']], delimiter=';',
+                                            subgrader=SingleListGrader(subgrader=fgd)),
         }
-        graders['single_fd'] = SingleListGrader(subgrader=graders['fgd'], answers=['1', '2'])
-        menu = {'fgd': ([None, '1', '2'], ['1', '2', '1+']), 'single_fd': ([None], ['1,2', '2,1', '1,3'])}
+        menu = {'fgd': ([None, '1', '2'], ['1', '2', '1+']), 'sgd': ([None, 'cat'], ['cat', 'dog']),
+                'single_fd': ([None], ['1,2', '2,1', '1,3']), 'single_fdd': ([None], ['1,2', '1,3']),
+                'list_fd': ([None], [['1', '2'], ['2', '1'], ['1', '3'], ['1', '2+']]),
+                'list_fdd': ([None], [['1', '2'], ['1', '3']]),
+                'list_sd': ([None], [['cat', '1'], ['dog', '1'], ['cat', '2']]),
+                'list_nest': ([None], [['1', '2', '3', '4'], ['3', '4', '1', '2'], ['1', '2', '3', '5']]),
+                'single_nest': ([None], ['1,2;3,4', '3,4;1,2', '1,2;3'])}
+        return graders, menu
+
+    def literals():
+        """purely literal inputs (no variables, functions or suffixes) handed to graders whose options give the same text
+        different meanings: negative powers, infinities, array dimension, shape-error handling"""
+        lit = ['[[2,0],[0,2]]^-1', '[[2,0],[0,2]]^-1*[1,1]', '[[0.5,0],[0,0.5]]', '[[1,2],[3,4]]*[1,1]', '[1,2]+[1,2,3]',
+               '[1,2]*[3,4]', '10^400', '1/0', '2^-1', '[[1,2],[3,4]]^2', '[3,7]', '7', '0', '[[1,2],[3,4]]^-1*[[1,2],[3,4]]']
+        graders = {
+            'np_off': MatrixGrader(answers='[[0.5,0],[0,0.5]]', negative_powers=False, max_array_dim=2),
+            'np_on': MatrixGrader(answers='[[0.5,0],[0,0.5]]', max_array_dim=2),
+            'np_quiet': MatrixGrader(answers='[0.5,0.5]', negative_powers=False, max_array_dim=2, suppress_matrix_messages=True),
+            'dim1': MatrixGrader(answers='[3,7]'),
+            'dim2': MatrixGrader(answers='[3,7]', max_array_dim=2),
+            'shape_q': MatrixGrader(answers='[4,6]', shape_errors=False, max_array_dim=2),
+            'shape_m': MatrixGrader(answers='[4,6]', max_array_dim=2, answer_shape_mismatch={'is_raised': False, 'msg_detail': 'shape'}),
+            'inf_on': FormulaGrader(answers='infty', allow_inf=True),
+            'inf_off': FormulaGrader(answers='7'),
+            'num': NumericalGrader(answers='0.5'),
+            'f_dim': FormulaGrader(answers='11', max_array_dim=1),
+        }
+        menu = {n: ([None], lit) for n in graders}
         return graders, menu
 
     def authorobjs():
@@ -1089,10 +1130,10 @@ def world_factory(kind):
         return graders, menu
 
     return {'shared': shared, 'matrices': matrices, 'debugsub': debugsub, 'authorobjs': authorobjs, 'options': options,
-            'plain': plain}[kind]
+            'plain': plain, 'literals': literals}[kind]
 
 
-INFERRED_LINE = re.compile(r'Expect value inferred to be .*?<br/>\\n')
+INFERRED_LINE = re.compile(r'<br/>\\nExpect value inferred to be .*?(?=<br/>\\n|</pre>)')
 
 
 def strip_inferred_any(o):
@@ -1205,6 +1246,10 @@ def mixed_violation(kind, calls):
 
 
 MIXED_CORPUS = [
+    ('debugsub', [('fgd', '1', '1'), ('list_fd', None, ['1', '2'])]),
+    ('debugsub', [('list_fdd', None, ['1', '2']), ('list_fd', None, ['1', '2'])]),
+    ('debugsub', [('fgd', '1', '1'), ('list_nest', None, ['1', '2', '3', '4'])]),
+    ('literals', [('np_on', None, '[[2,0],[0,2]]^-1'), ('np_off', None, '[[2,0],[0,2]]^-1')]),
     ('authorobjs', [('lin1', None, '0'), ('lin1', None, '2*x^2')]),
     ('authorobjs', [('lin1', None, '0*x'), ('lin2', None, '2*(4*x+1)')]),
     ('authorobjs', [('mec1', None, '[0,0,0]'), ('mec2', None, '[x,x]')]),
@@ -1218,8 +1263,8 @@ MIXED_CORPUS = [
 
 def random_mixed(ctx, res, rng):
     from mitxgraders.helpers.calc.math_array import MathArray
-    n_hist = {'shared': 40, 'matrices': 40, 'debugsub': 4, 'authorobjs': 40, 'options': 20} if ctx['tier'] == 'quick' else \
-        {'shared': 500, 'matrices': 500, 'debugsub': 30, 'authorobjs': 600, 'options': 300}
+    n_hist = {'shared': 40, 'matrices': 40, 'debugsub': 15, 'authorobjs': 40, 'options': 20, 'literals': 15} if ctx['tier'] == 'quick' else \
+        {'shared': 500, 'matrices': 500, 'debugsub': 200, 'authorobjs': 600, 'options': 300, 'literals': 300}
     total_calls = 0
     valid_cache = {}
     # corpus: minimised histories found earlier run first, on every run
@@ -1232,9 +1277,11 @@ def random_mixed(ctx, res, rng):
                                   'stages': [None if b is None else expect_stage(kind, a, b) for a, b, c in calls],
                                   'what': 'call returns %s; the same call on a freshly built set of graders returns %s'
                                           % (repr(got)[:200], repr(want)[:200])})
+    ran = {}
     with ScopeWatch() as watch:
         for kind, count in n_hist.items():
             for _ in range(count):
+                ran[kind] = ran.get(kind, 0) + 1
                 before_settings = settings_snapshot()
                 graders, menu = world_factory(kind)()
                 names = sorted(graders)
@@ -1313,6 +1360,9 @@ def random_mixed(ctx, res, rng):
                                   'what': 'evaluator call changed the %s scope it was handed' % '/'.join(h['changed'])})
         res.distribution['evaluator_calls_watched'] = watch.calls
     res.distribution['mixed_histories'] = dict(n_hist)
+    res.distribution['mixed_histories_run'] = dict(ran)
+    if ran != n_hist:
+        res.corr_errors.append(('mixed-grader histories', 'planned %r, ran %r' % (n_hist, ran)))
     if COPY_UNFAITHFUL:
         res.notes.append('reference graders of worlds %s were constructed, not copied (a copy answered differently)'
                          % sorted(COPY_UNFAITHFUL))
@@ -1329,42 +1379,108 @@ def describe_object_change(o, before):
     return '%s changed' % (now[1] if len(now) > 1 else now[0],)
 
 
-PROBE_WORLDS = ('plain', 'options', 'authorobjs', 'shared', 'matrices', 'plain')
+PROBE_WORLDS = ('plain', 'literals', 'options', 'authorobjs', 'shared', 'matrices', 'debugsub', 'plain')
 
 
-def probe_outcomes():
+def probe_key(pos, kind, n, s):
+    return '%d:%s/%s(%r)' % (pos, kind, n, s)
+
+
+def parse_probe_key(k):
+    import ast as _ast
+    head, rest = k.split('/', 1)
+    pos, kind = head.split(':', 1)
+    n, arg = rest.split('(', 1)
+    return int(pos), kind, n, _ast.literal_eval(arg[:-1])
+
+
+def reimport_library():
+    """forget every module of the library (and of voluptuous) and import it again"""
+    import sys
+    import importlib
+    for m in [m for m in sys.modules if m.split('.')[0] in ('mitxgraders', 'voluptuous')]:
+        del sys.modules[m]
+    importlib.import_module('mitxgraders')
+
+
+def probe_outcomes(order='forward', only=None):
     """a fixed set of probe calls: every grader of the mixed worlds on every input of its menu, from freshly built
-    worlds, with the global RNGs seeded so that the sampled values are the same wherever the probes run"""
+    worlds, with the global RNGs seeded so that the sampled values are the same wherever the probes run.
+    order: 'forward' | 'reverse' (worlds, graders and inputs all reversed); only: run just these keys, in this order"""
     import random as _random
     import numpy as np
     st_py, st_np = _random.getstate(), np.random.get_state()
     out = {}
-    try:
-        for pos, kind in enumerate(PROBE_WORLDS):
-            _random.seed(12345)
-            np.random.seed(12345)
+    worlds = {}
+
+    def world(pos, kind):
+        if pos not in worlds:
+            _random.seed(12345 + pos)
+            np.random.seed(12345 + pos)
             graders, menu = world_factory(kind)()
-            for n in sorted(graders):
-                exps, inps = menu[n]
-                e = next((x for x in exps if x is not None), None) if hasattr(graders[n], 'infer_from_expect') \
-                    and not graders[n].config.get('answers') else None
-                for s in inps:
-                    st, v = core.guarded(graders[n], e, s)
-                    out['%d:%s/%s(%r, %r)' % (pos, kind, n, e, s)] = list(canon_any(st, v))
+            # graders without configured answers are always probed with the first expect value of their menu
+            expects = {n: (next((x for x in menu[n][0] if x is not None), None)
+                           if hasattr(g, 'infer_from_expect') and not g.config.get('answers') else None)
+                       for n, g in graders.items()}
+            worlds[pos] = (graders, menu, expects)
+        return worlds[pos]
+
+    def call(pos, kind, n, s):
+        graders, menu, expects = world(pos, kind)
+        g, e = graders[n], expects[n]
+        h = zlib.crc32(probe_key(pos, kind, n, s).encode())     # sampled values do not depend on what ran before
+        _random.seed(h)
+        np.random.seed(h)
+        st, v = core.guarded(g, e, s)
+        out[probe_key(pos, kind, n, s)] = list(canon_any(st, v))
+    try:
+        if only is not None:
+            for k in only:
+                call(*parse_probe_key(k))
+        elif order == 'isolated':
+            # every grader of every world gets a library imported afresh (module-level caches, class attributes and
+            # default tables as after interpreter start-up), its own freshly built world, and only its own menu
+            for pos, kind in enumerate(PROBE_WORLDS):
+                names = sorted(world(pos, kind)[0])
+                for n in names:
+                    worlds.clear()
+                    reimport_library()
+                    import numpy as np      # noqa
+                    inps = list(world(pos, kind)[1][n][1])
+                    for s in inps:
+                        call(pos, kind, n, s)
+                worlds.clear()
+        else:
+            seq = list(enumerate(PROBE_WORLDS))
+            rev = order == 'reverse'
+            for pos, kind in (reversed(seq) if rev else seq):
+                graders, menu, _ = world(pos, kind)
+                names = sorted(graders, reverse=rev)
+                for n in names:
+                    inps = list(menu[n][1])
+                    for s in (reversed(inps) if rev else inps):
+                        call(pos, kind, n, s)
     finally:
         _random.setstate(st_py)
         np.random.set_state(st_np)
     return out
 
 
-def start_fresh_probe():
+def start_fresh_probe(order='forward', only=None):
     """the same probes in a FRESH interpreter (nothing has been graded there)"""
     import subprocess
     import sys
     code = ('import sys, json; sys.path[:0] = [%r, %r]; from harness.props import c11; '
-            'sys.stdout.write("@@PROBE" + json.dumps(c11.probe_outcomes()))' % (core.REPO, core.VERIF))
+            'sys.stdout.write("@@PROBE" + json.dumps(c11.probe_outcomes(%r, %r)))' % (core.REPO, core.VERIF, order, only))
     env = dict(os.environ, PYTHONHASHSEED='0', PYTHONDONTWRITEBYTECODE='1')
     return subprocess.Popen([sys.executable, '-B', '-c', code], stdout=subprocess.PIPE, stderr=subprocess.PIPE, env=env, text=True)
+
+
+def finish_probe(proc):
+    out, err = proc.communicate(timeout=900)
+    if '@@PROBE' not in out:
+        return None, (out + err)[-1500:]
+    return json.loads(out.split('@@PROBE', 1)[1]), ''
 
 
 def compare_probes(res, fresh, here, where):
@@ -1374,9 +1490,35 @@ def compare_probes(res, fresh, here, where):
             n += 1
             if n <= 4:
                 res.witnesses.append({'key': 'probe:%s' % k, 'kind': 'probe', 'probe': k, 'where': where,
-                                      'what': 'probe %s returns %s after %s, but %s in a fresh interpreter'
+                                      'what': 'probe %s returns %s after %s, but %s as the only grader used since the library was imported'
                                               % (k, repr(here[k])[:200], where, repr(fresh[k])[:200])})
     return n
+
+
+def compare_probe_isolation(res, fwd, iso):
+    """a fresh interpreter ran all probes one after the other (fwd); another gave every grader a freshly imported
+    library and only its own probes (iso).  A probe that comes out differently depends on what was graded before it.
+    Such probes are re-run after single earlier probes in further fresh interpreters to name the call responsible."""
+    diff = [k for k in fwd if k in iso and fwd[k] != iso[k] and 'timeout' not in (fwd[k][0], iso[k][0])]
+    fkeys = list(fwd)
+    for k in diff[:3]:
+        w = {'key': 'probe-order:%s' % k, 'kind': 'probe-order', 'probe': k,
+             'what': 'probe %s returns %s when it is the only grader used since the library was imported, but %s in a fresh '
+                     'interpreter that ran the other probes before it' % (k, repr(iso[k])[:160], repr(fwd[k])[:160])}
+        pos, kind, n, s = parse_probe_key(k)
+        before = fkeys[:fkeys.index(k)]
+        same_text = [p for p in before if parse_probe_key(p)[3] == s and parse_probe_key(p)[2] != n]
+        others = [p for p in reversed(before) if parse_probe_key(p)[2] != n and p not in same_text]
+        cands = (same_text[::-1] + others)[:48]
+        procs = [(p, start_fresh_probe(only=[p, k])) for p in cands]
+        for p, pr in procs:
+            got, _ = finish_probe(pr)
+            if got and got.get(k) == fwd[k] and 'calls' not in w:
+                w['calls'] = [p, k]
+                w['what'] = ('in a fresh interpreter %s returns %s; in another fresh interpreter, right after %s, it returns %s'
+                             % (k, repr(iso[k])[:160], p, repr(fwd[k])[:160]))
+        res.witnesses.append(w)
+    return len(diff)
 
 
 def shares(graders, a, b):
@@ -1486,7 +1628,8 @@ def construction_checks(ctx, res):
             st, g = core.guarded(lambda: cls(cfg) if mode != 'kwargs' else cls(**cfg))
             res.oracle_evals += 1
             if st != 'ret':
-                res.notes.append('construction case %s/%s did not construct: %r' % (name, mode, g))
+                # a case that can no longer be built is a hole in the stream: report it, never skip silently
+                res.corr_errors.append(('construction case %s/%s' % (name, mode), 'did not construct: %r' % (g,)))
                 continue
             what = None
             if fp(cfg) != before:
@@ -1623,7 +1766,8 @@ def run(ctx):
                 'tree node (= one call after one history); a node is non-trivial when its history has at least two calls of '
                 'which at least one returns a grade. mixed: random interleavings over graders sharing subgraders / matrix '
                 'graders with negative powers off and on; construction: distinct (case, mode).')
-    fresh_proc = start_fresh_probe()
+    fresh_proc = start_fresh_probe('forward')
+    fresh_iso = start_fresh_probe('isolated')
     baseline = settings_snapshot()
     jobs = [(n, c, d, ctx['tier'], bool(ctx['escalate']), seed) for (n, c, d) in combos()]
     t0 = time.time()
@@ -1685,17 +1829,24 @@ def run(ctx):
     # perturb-then-probe: the probes after everything this process and the sweep workers have done, against the
     # same probes in an interpreter that has graded nothing
     t4 = time.time()
-    out, err = fresh_proc.communicate(timeout=600)
-    if '@@PROBE' not in out:
-        res.corr_errors.append(('fresh-interpreter probes', (out + err)[-1500:]))
+    fresh, err1 = finish_probe(fresh_proc)
+    iso, err2 = finish_probe(fresh_iso)
+    if fresh is None or iso is None:
+        res.corr_errors.append(('fresh-interpreter probes', err1 + err2))
+    elif set(fresh) != set(iso) or set(main_probes) != set(iso) or any(set(r['probes']) != set(iso) for r in results):
+        res.corr_errors.append(('fresh-interpreter probes', 'the probe streams do not cover the same calls: %d isolated, %d in '
+                                'sequence, %d in this process, %s in the sweep workers'
+                                % (len(iso), len(fresh), len(main_probes), sorted(set(len(r['probes']) for r in results)))))
     else:
-        fresh = json.loads(out.split('@@PROBE', 1)[1])
-        differing = compare_probes(res, fresh, main_probes, 'the construction and mixed-grader batches of this run')
+        # every stream of probes is compared with the probes run in isolation
+        differing = compare_probes(res, iso, main_probes, 'the construction and mixed-grader batches of this run')
         for r in results:
-            differing += compare_probes(res, fresh, r['probes'], 'the %s sweep (%s, %s)' % (
+            differing += compare_probes(res, iso, r['probes'], 'the %s sweep (%s, %s)' % (
                 r['name'], 'configured' if r['configured'] else 'inferring', 'debug' if r['debug'] else 'no debug'))
-        res.oracle_evals += len(fresh) * (1 + len(results))
-        res.distribution['probes'] = {'probe_calls': len(fresh), 'batches_probed': 1 + len(results), 'differing': differing}
+        order_dependent = compare_probe_isolation(res, fresh, iso)
+        res.oracle_evals += len(fresh) * (2 + len(results))
+        res.distribution['probes'] = {'probe_calls': len(fresh), 'batches_probed': 1 + len(results), 'differing': differing,
+                                      'fresh_interpreters': 2, 'history_dependent_in_a_fresh_interpreter': order_dependent}
     res.distribution['probe_wall_s'] = round(time.time() - t4, 1)
     res.nontrivial = sweep_nontrivial + main_nontrivial
     by = {}
@@ -1744,15 +1895,24 @@ def replay(w):
         return bool(hit), (hit[0]['what'] if hit else 'construction case %s is clean on the current tree' % w['key'])
     if kind == 'probe':
         res = core.Result()
-        proc = start_fresh_probe()
+        proc = start_fresh_probe('isolated')
         construction_checks({'tier': 'quick'}, res)
         random_mixed({'tier': 'quick'}, res, random.Random(11))
-        out, err = proc.communicate(timeout=600)
-        fresh = json.loads(out.split('@@PROBE', 1)[1])
+        fresh, _ = finish_probe(proc)
         here = probe_outcomes()
         k = w['probe']
         return here.get(k) != fresh.get(k), 'probe %s: after a perturbing batch %r, in a fresh interpreter %r' % (
             k, here.get(k), fresh.get(k))
+    if kind == 'probe-order':
+        k = w['probe']
+        alone, _ = finish_probe(start_fresh_probe(only=[k]))
+        seq = w.get('calls')
+        if seq:
+            after, _ = finish_probe(start_fresh_probe(only=seq))
+        else:
+            after, _ = finish_probe(start_fresh_probe('forward'))
+        return after[k] != alone[k], 'fresh interpreter: %s alone -> %r; after %s -> %r' % (
+            k, alone[k], seq[0] if seq else 'the other probes', after[k])
     if kind in ('settings', 'scope', 'defaults'):
         res = core.Result()
         construction_checks({'tier': 'quick'}, res)
